@@ -34,6 +34,9 @@ theorem not_ge_ofNat (n : Nat) (h : n < 2 ^ 31) : ¬ (UInt32.ofNat n ≥ 0x80000
   show ¬ (2147483648 ≤ n)
   omega
 
+theorem drop_of_length (a b : Bytes) (n : Nat) (h : a.length = n) : (a ++ b).drop n = b := by
+  subst h; exact List.drop_left
+
 /-- `bone_count & 1 != 0` is "the count is odd" -/
 theorem odd_test (n : Nat) (h : n < 2 ^ 32) :
     (UInt32.ofNat n &&& 1 != 0) = decide (n % 2 = 1) := by
@@ -184,5 +187,109 @@ theorem readDeformer_block (file : Bytes) (off : Nat) (bones : List Spec.Pbd.Bon
       simp [Rd.u16le]
     simp [hodd, h00, readMatrices_encode bones _ hdef, zipBones_map]
   · simp [hodd, readMatrices_encode bones _ hdef, zipBones_map]
+
+/-! ### item table, link table, whole file -/
+
+def blocks (its : List Spec.Pbd.Item) : Bytes := its.flatMap (fun it => encodeBlock it.bones)
+
+/-- the item table: every item's block is found at its recorded offset -/
+theorem readItems_encode (file : Bytes) :
+    ∀ (its : List Spec.Pbd.Item) (off : Nat) (rest X : Bytes),
+    (∀ it ∈ its, WFBones it.bones) →
+    off + (blocks its).length < 2 ^ 31 →
+    file.drop off = blocks its ++ X →
+    readItems file its.length (encodeItems off its ++ rest) = .ok (its.map convItem, rest) := by
+  intro its
+  induction its with
+  | nil => intro off rest X _ _ _; rfl
+  | cons it r ih =>
+    intro off rest X hwf hlen hdrop
+    have hit : WFBones it.bones := hwf it (by simp)
+    have hr : ∀ it ∈ r, WFBones it.bones := fun x hx => hwf x (by simp [hx])
+    have hb : blocks (it :: r) = encodeBlock it.bones ++ blocks r := by simp [blocks]
+    rw [hb, List.length_append] at hlen
+    have hdef := readDeformer_block file off it.bones (blocks r ++ X) (by omega) hit
+      (by rw [hdrop, hb, List.append_assoc])
+    have hnext := ih (off + (encodeBlock it.bones).length) rest X hr (by omega)
+      (by rw [← List.drop_drop, hdrop, hb, List.append_assoc, List.drop_left])
+    simp only [encodeItems, List.length_cons, List.append_assoc, readItems, Rd.u16le_put, Rd.u32le_put,
+      hdef, Rd.skip, List.cons_append, List.nil_append, List.drop_succ_cons, List.drop_zero, hnext,
+      List.map_cons, convItem]
+
+theorem readLinks_encode :
+    ∀ (links : List Spec.Pbd.Link) (rest : Bytes),
+    readLinks links.length (links.flatMap encodeLink ++ rest) = some (links.map convLink) := by
+  intro links
+  induction links with
+  | nil => intro _; rfl
+  | cons l r ih =>
+    intro rest
+    simp only [List.length_cons, List.flatMap_cons, encodeLink, List.append_assoc, readLinks, Rd.u16s,
+      Rd.u16le_put, ih, Option.map_some, List.map_cons, convLink]
+
+theorem length_encodeItems : ∀ (its : List Spec.Pbd.Item) (off : Nat), (encodeItems off its).length = 12 * its.length := by
+  intro its
+  induction its with
+  | nil => intro _; rfl
+  | cons it r ih =>
+    intro off
+    simp only [encodeItems, List.length_append, length_putU16le, length_putU32le, ih, List.length_cons,
+      List.length_nil]
+    omega
+
+theorem length_encodeLinks (links : List Spec.Pbd.Link) : (links.flatMap encodeLink).length = 8 * links.length := by
+  induction links with
+  | nil => rfl
+  | cons l r ih =>
+    simp only [List.flatMap_cons, encodeLink, List.length_append, length_putU16le, ih, List.length_cons]
+    omega
+
+/-- **the parser returns exactly the stored records**: `PreBoneDeformer::from_existing` on the encoding
+of any file the layout can hold yields the header with the items (body id, link index, named matrices in
+order) and the links of `f`. -/
+theorem fromExisting_encode (f : File) (h : WFLayout f) : fromExisting (encode f) = .ok (toModel f) := by
+  obtain ⟨hcount, hitems, hsize⟩ := h
+  have hwf : ∀ it ∈ f.items, WFBones it.bones := fun it m =>
+    ⟨(hitems it m).1, fun b mb => ⟨((hitems it m).2 b mb).1, fun c mc => (((hitems it m).2 b mb).2 c mc).1⟩⟩
+  have henc : encode f = putU32le (UInt32.ofNat f.items.length) ++
+      (encodeItems (4 + 12 * f.items.length + 8 * f.links.length) f.items ++
+        (f.links.flatMap encodeLink ++ blocks f.items)) := by
+    simp [encode, blocks, List.append_assoc]
+  have hlen : (encode f).length =
+      4 + 12 * f.items.length + 8 * f.links.length + (blocks f.items).length := by
+    rw [henc]
+    simp only [List.length_append, length_putU32le, length_encodeItems, length_encodeLinks]
+    omega
+  have hn : f.items.length < 2 ^ 31 := by omega
+  have hdrop : (encode f).drop (4 + 12 * f.items.length + 8 * f.links.length) = blocks f.items ++ [] := by
+    have hpre : (putU32le (UInt32.ofNat f.items.length) ++
+        (encodeItems (4 + 12 * f.items.length + 8 * f.links.length) f.items ++
+          f.links.flatMap encodeLink)).length = 4 + 12 * f.items.length + 8 * f.links.length := by
+      simp only [List.length_append, length_putU32le, length_encodeItems, length_encodeLinks]
+      omega
+    rw [henc, List.append_nil]
+    simp only [← List.append_assoc]
+    exact drop_of_length _ _ _ hpre
+  have hitemsRead := readItems_encode (encode f) f.items (4 + 12 * f.items.length + 8 * f.links.length)
+    (f.links.flatMap encodeLink ++ blocks f.items) [] hwf (by omega) hdrop
+  have hlinks := readLinks_encode f.links (blocks f.items)
+  rw [hcount] at hlinks
+  unfold fromExisting
+  rw [show Rd.u32le (encode f) = some (UInt32.ofNat f.items.length, _) from by rw [henc]; exact Rd.u32le_put _ _]
+  simp only [not_ge_ofNat _ hn, if_false, toNat_ofNat32 _ (show f.items.length < 2 ^ 32 by omega),
+    hitemsRead, hlinks, toModel]
+
+/-- what a user of the library runs: `PreBoneDeformer::from_existing(buffer)?.get_deform_matrices(a, b)` -/
+def query (buffer : Bytes) (a b : UInt16) : Outcome (List Bone) :=
+  match fromExisting buffer with
+  | .ok h => getDeformMatrices h a b
+  | .none => .none
+  | .panic => .panic
+  | .diverges => .diverges
+  | .unmodelled => .unmodelled
+
+theorem query_encode (f : File) (h : WFLayout f) (a b : UInt16) :
+    query (encode f) a b = getDeformMatrices (toModel f) a b := by
+  simp only [query, fromExisting_encode f h]
 
 end Physis.Pbd
